@@ -15,6 +15,7 @@ THEOREMS = [
     "VK.C17_boosted_step",
     "VK.C17_squares",
     "VK.C17_tiebreak_uniform",
+    "VK.kernel_boosted_branch",
 ]
 RULE = ("cases = RandomDictator / BoostedRandomDictator on random profiles (1-6 candidates, ties in first place, partial "
         "ballots, rational weights) x m x seeds: every call of random.choices / random.uniform / numpy.random.choice / "
